@@ -150,6 +150,33 @@ def run_history(case):
             except BaseException:  # noqa
                 pass
             steps.append({"op": "deepcall", "t": arg + 1, "res": 0, "lid": 0, "m": 0})
+        elif op == "K":
+            # a shallow copy of the parser (copy.copy) gets its own tokenizer with more functions and its own, cleared caches, and
+            # is used; the original must go on answering as configured
+            import copy
+            try:
+                twin = copy.copy(parser)
+                configure(twin, 3, in_place="replace")
+                twin.clear_cache()
+                for tx in texts[:6]:
+                    try:
+                        twin.parse(tx)
+                        twin.tokenize(tx)
+                    except BaseException:  # noqa
+                        pass
+            except BaseException:  # noqa
+                pass
+            steps.append({"op": "twin", "t": 0, "res": 0, "lid": 0, "m": 0})
+        elif op == "MC":
+            # the parser's public cursor attributes after a call: the token it stopped at and what is left of its working list
+            try:
+                for tk in [getattr(parser, "current_token", None)] + list(getattr(parser, "tokens", None) or []) + list(getattr(parser, "_all_tokens", None) or []):
+                    if tk is not None and hasattr(tk, "value"):
+                        tk.value = "8"
+                        tk.type = 1 << 0
+            except BaseException:  # noqa
+                pass
+            steps.append({"op": "edit", "t": 0, "res": 0, "lid": 0, "m": 0})
         elif op in ("FP", "FT"):
             try:
                 r = proj_result("tree", ExpressionParser().parse(texts[arg])) if op == "FP" else proj_result("tokens", ExpressionParser().tokenize(texts[arg]))
@@ -197,6 +224,14 @@ def domain(ctx, focus):
     if True:
         ctexts = ["4x + 2y^3", "abs(x)", "absolute(x) + 1", "2abs(y) - sgn(x)", "4 +"]
         cops = [["P", i] for i in range(len(ctexts))] + [["T", i] for i in range(len(ctexts))] + [["C", None], ["S", 1], ["S", 2], ["S", 3]]
+        # histories with a shallow-copied twin parser / edits of the cursor attributes instead of a reconfiguration
+        kops = [["P", i] for i in range(len(ctexts))] + [["T", i] for i in range(len(ctexts))] + [["C", None], ["K", None], ["MC", None]]
+        for n in range(1, 4):
+            for h in itertools.product(kops, repeat=n):
+                if not any(o in ("K", "MC") for o, _ in h) or (n == 3 and rng.random() < (0.8 if ctx.quick else 0.3)):
+                    continue
+                cases.append({"texts": ctexts, "history": list(h) + [["P", i] for i in range(len(ctexts))] + [["T", i] for i in range(len(ctexts))] + [["P", i] for i in range(len(ctexts))], "noquery": True})
+                nconf += 1
         cquery = [["P", i] for i in range(len(ctexts))] + [["T", i] for i in range(len(ctexts))] + [["FP", i] for i in range(len(ctexts))] + [["FT", i] for i in range(len(ctexts))]
         for n in range(1, 4 if focus != "sticky" else 3):
             for h in itertools.product(cops, repeat=n):
